@@ -13,6 +13,7 @@ import (
 	"errors"
 	"fmt"
 	"os"
+	"strings"
 	"sync"
 	"sync/atomic"
 
@@ -440,6 +441,26 @@ var oddStrings = []string{
 	`":"`, `"]`, `" "`, "[]", `x":["y"]`, "", " ", ":", ",",
 }
 
+// lookalikes of a subject string: what a careless normalisation (lower-casing, trimming, Unicode
+// case folding) would identify with it although the services treat them as different subjects
+// (group names and tokens are case-sensitive; the single-flight keys are exact).
+func lookalikes(s string) []string {
+	up := strings.ToUpper(s)
+	title := s
+	if len(s) > 0 {
+		title = strings.ToUpper(s[:1]) + s[1:]
+	}
+	fold := strings.NewReplacer("k", "\u212a", "s", "\u017f", "i", "\u0130").Replace(s) // Kelvin sign, long s, dotted capital I
+	return []string{title, up, s + " ", " " + s, "\t" + s, fold}
+}
+
+func lookalikeOr(r *Rng, s string, p float64) string {
+	if r.Chance(p) {
+		return r.Pick(lookalikes(s))
+	}
+	return s
+}
+
 func oddOr(r *Rng, s string, p float64) string {
 	if r.Chance(p) {
 		return r.Pick(oddStrings)
@@ -450,8 +471,8 @@ func oddOr(r *Rng, s string, p float64) string {
 func genSession(r *Rng) *sess {
 	s := basePool[r.Intn(len(basePool))]
 	s.groups = append([]string(nil), s.groups...)
-	s.access = oddOr(r, s.access, 0.08)
-	s.refresh = oddOr(r, s.refresh, 0.08)
+	s.access = lookalikeOr(r, oddOr(r, s.access, 0.08), 0.1)
+	s.refresh = lookalikeOr(r, oddOr(r, s.refresh, 0.08), 0.1)
 	if r.Chance(0.25) { // a stale or newer copy of the same cookie
 		s.refreshDL += int64(100 * (1 + r.Intn(3)))
 		s.validDL += int64(100 * (1 + r.Intn(3)))
@@ -514,8 +535,12 @@ func genGroupsQuestion(r *Rng, endpoint string) *question {
 		}[r.Intn(6)]
 		return &question{endpoint: endpoint, email: p[0].(string), groups: append([]string(nil), p[1].([]string)...)}
 	}
-	return &question{endpoint: endpoint, email: r.Pick([]string{"a@x.io", "b@x.io"}),
+	q := &question{endpoint: endpoint, email: lookalikeOr(r, r.Pick([]string{"a@x.io", "b@x.io"}), 0.12),
 		groups: append([]string(nil), groupLists[r.Intn(len(groupLists))]...)}
+	for i := range q.groups { // look-alike group names: same letters, other case / blanks / folding
+		q.groups[i] = lookalikeOr(r, q.groups[i], 0.12)
+	}
+	return q
 }
 
 func genErr(r *Rng, p float64) (int, error) {
@@ -560,6 +585,20 @@ func main() {
 	var cases []Case
 
 	quiet()
+	if why := singleflight.VerifObservable(); why != "" {
+		// The group no longer has the shape the schedule engine observes (lock, map of calls, join
+		// counter, WaitGroup). Record that as a broken correspondence and judge what can still be
+		// judged without looking inside: bursts of identical calls, by invariants.
+		cases = append(cases, Case{
+			Coq:  "CGen [] 0%nat [LBegin 1%nat] []",
+			JSON: map[string]interface{}{"level": "singleflight.Group", "not_observable": why},
+		})
+		for i := 0; i < 300; i++ {
+			cases = append(cases, burst(r.Sub(200000+i)))
+		}
+		Must(WriteShards(a.Out, "Corr_C16", cases, a.Shard))
+		return
+	}
 	// 0. the real-time dimension runs beside everything else (it spends its time asleep)
 	var slowWG sync.WaitGroup
 	slow := make([]Case, 2)
@@ -600,6 +639,15 @@ func main() {
 			fmt.Fprintln(os.Stderr, "c16: giving up generating further schedules after repeated time-outs (the code under test no longer makes joins visible / callers hang)")
 			break
 		}
+	}
+	// 2b. bursts: identical calls released from a spin barrier on several CPUs at the same instant,
+	//     judged by invariants (executions of a key never overlap, counts add up)
+	nb := 40
+	if a.Tier == "thorough" {
+		nb = 400
+	}
+	for i := 0; i < nb; i++ {
+		cases = append(cases, burst(r.Sub(200000+i)))
 	}
 	// 3. thorough tier: every schedule of at most 4 callers over at most 2 keys, then
 	//    free-running storms judged by invariants only
